@@ -1,7 +1,7 @@
 #!/usr/bin/env python3
 """Confirms every seeded change under /verif/seeded in a scratch worktree of /repo at HEAD:
 patch applies, tree builds, the demonstration passes without the change and fails with it, the existing unit tests
-pass with it, the wire suite (tests/) passes with it (up to 3 attempts: the suite is flaky under load).
+pass with it, the wire suite (tests/) passes with it (up to 5 attempts: the suite is flaky under load).
 Writes seeded/<id>/confirm.json. usage: confirm_all.py [id ...]"""
 import json, os, re, subprocess, sys, shutil
 ENV = dict(os.environ, GOFLAGS='-mod=mod', GOPROXY='off', GOSUMDB='off', GOTOOLCHAIN='local')
@@ -54,9 +54,11 @@ SEEDS = {
  'C08-F': ('internal/db_impl/sqlite3', './internal/db_impl/sqlite3', 'TestDemoE_MailboxTranslateRemoteIDsSkipsUnknownIDs'),
  'C01-F': ('tests', './tests', 'TestMutA_'), 'C01-G': ('tests', './tests', 'TestMutB_'), 'C05-F': ('tests', './tests', 'TestMutC_'),
  'C05-G': ('tests', './tests', 'TestMutD_'), 'C16-E': ('rfcparser', './rfcparser', 'TestMutE_ParseNumberBoundary'),
+ 'C13-F': ('rfc822', './rfc822', 'TestW6aA_ScannerIgnoresLongerBoundary'), 'C13-G': ('tests', './tests', 'TestW6aB_'),
+ 'C07-E': ('tests', './tests', 'TestW6aC_'), 'C03-F': ('tests', './tests', 'TestW6aD_'), 'C07-F': ('tests', './tests', 'TestW6aE_'),
 }
 # demo files that belong to another package than the main demo (skipped in the confirmation run)
-SKIP = {'C10-H': ['demo_b_id_wire_test.go'], 'C08-E': ['demo_d_store_wire_test.go'], 'C08-F': ['demo_e_single_unknown_mailbox_wire_test.go'], 'C16-E': ['mut_e_test.go'], 'C18-E': ['zz_c18_login_exact_test.go'], 'C11-D': ['zz_demo_c11a_wire_test.go'], 'C01-D': ['demo_merge_expunge_wire_test.go'], 'C01-E': ['demo_silent_store_wire_test.go'], 'C13-E': ['demo_c_fetch_empty_part_test.go'], 'C17-C': ['demo_d_message_limit_test.go'], 'C01-A': ['c01_uid_range_seq_test.go'], 'C16-A': ['zz_demo_a_wire_test.go'], 'C16-B': ['zz_demo_b_wire_test.go'], 'C05-A': ['c05_mutA_readd_demo_test.go']}
+SKIP = {'C13-F': ['w6a_a_nested_boundary_test.go'], 'C10-H': ['demo_b_id_wire_test.go'], 'C08-E': ['demo_d_store_wire_test.go'], 'C08-F': ['demo_e_single_unknown_mailbox_wire_test.go'], 'C16-E': ['mut_e_test.go'], 'C18-E': ['zz_c18_login_exact_test.go'], 'C11-D': ['zz_demo_c11a_wire_test.go'], 'C01-D': ['demo_merge_expunge_wire_test.go'], 'C01-E': ['demo_silent_store_wire_test.go'], 'C13-E': ['demo_c_fetch_empty_part_test.go'], 'C17-C': ['demo_d_message_limit_test.go'], 'C01-A': ['c01_uid_range_seq_test.go'], 'C16-A': ['zz_demo_a_wire_test.go'], 'C16-B': ['zz_demo_b_wire_test.go'], 'C05-A': ['c05_mutA_readd_demo_test.go']}
 
 def sh(cmd, timeout=900, cwd=WT):
     try:
@@ -108,7 +110,7 @@ def main():
             rc, out = sh(unit_cmd, 1000); res['unit_tests_with_change'] = {'cmd': unit_cmd, 'exit': rc, 'failures': summary('\n'.join(l for l in out.splitlines() if not l.startswith('ok')))}
             wire_cmd = 'GOMAXPROCS=4 go test -vet=off -count=1 -timeout 4m ./tests/'
             res['wire_suite_with_change'] = []
-            for attempt in (1, 2, 3):
+            for attempt in (1, 2, 3, 4, 5):
                 rc, out = sh(wire_cmd, 300)
                 res['wire_suite_with_change'].append({'cmd': wire_cmd, 'attempt': attempt, 'exit': rc, 'summary': summary(out)})
                 if rc == 0: break
